@@ -546,8 +546,8 @@ impl<'a> Sim<'a> {
                     "stranger_accepted",
                     format!("ix={ix_name},variant={variant},program=competition"),
                     format!(
-                        "{ix_name} landed for a caller without the required authority ({variant}); watched accounts unchanged={unchanged}, inside window={}",
-                        !may_ignore
+                        "{ix_name} landed for a caller without the required authority ({variant}); watched accounts unchanged={unchanged}, call documented as ignorable here (outside the window)={}",
+                        may_ignore
                     ),
                 );
             }
